@@ -133,8 +133,9 @@ class Session:
             pred = int(xval > 0.0)
             y = pred if op != "l_bad" else 1 - pred
             cols = mm.FEATURES + [mm.TARGET]
-            row = [xval, 0.0, nid, y]
-            rows = [row] + ([[xval, 0.0, nid + 1, y]] if op == "l_2rows" else [])
+            lm_ = 0.0 if int(round(xval * 16)) % 4 < 2 else 3.0  # labelled samples lie inside or outside the margin
+            row = [xval, lm_, nid, y]
+            rows = [row] + ([[xval, lm_, nid + 1, y]] if op == "l_2rows" else [])
             df = pd.DataFrame(rows, columns=cols)
             if op == "l_cols":
                 df = df.rename(columns={"m": "other"}) if (nid // 2) % 2 else df.drop(columns=["m"])
@@ -143,7 +144,7 @@ class Session:
                     self.det.give_oracle_label(df)
             except ValueError as e:
                 raised = e
-            exp = m.label((nid, xval, 0.0, y), columns_ok=(op != "l_cols"), nrows=len(rows))
+            exp = m.label((nid, xval, lm_, y), columns_ok=(op != "l_cols"), nrows=len(rows))
             if exp == "confirm":
                 if abs(m.acc_gap) <= TIE and raised is None:
                     if m.state == "drift" and self.det.drift_state != "drift":
@@ -183,7 +184,7 @@ def check_walk(case, ctx):
     after_confirm_updates = 0
     for op, xval in case["ops"]:
         if op == "progress":
-            op = ("l_ok" if xval > 0 else "l_bad") if s.model.waiting else ("u_in" if abs(xval) < 1 else "u_out")
+            op = ("l_bad" if -0.5 < xval < 0 else "l_ok") if s.model.waiting else ("u_in" if abs(xval) < 1 else "u_out")
         conf_before = s.model.confirmations
         s.apply(op, xval)
         if s.model.confirmations and op.startswith("u_") and s.model.confirmations == conf_before and not s.history[-1][0].endswith("2rows"):
@@ -237,7 +238,7 @@ def check_subtree(case, ctx):
         return check_walk(case, ctx)
     counts = {"n": 0, "nt": 0}
     s = Session(case["cfg"], None)
-    xs = [0.5, -0.5, 1.5, -1.0, 0.25, -0.25]
+    xs = [0.5, -0.5, 1.5, -1.0, 0.25, -0.25, 0.125]
 
     def rec(sess, depth):
         if depth >= case["depth"]:
